@@ -233,7 +233,9 @@ class DataFrameSchemaBackend(PolarsSchemaBackend):
                             col_schema, check_obj
                         )
                     )
-                    regex_match_patterns.append(col_schema.selector)
+                    # the key the column is declared under (the selector is
+                    # its anchored form)
+                    regex_match_patterns.append(col_name)
                 except SchemaError:
                     pass
             elif col_name in get_lazyframe_column_names(check_obj):
